@@ -2,7 +2,7 @@
    "linear", as modelled: insertion sort, virtual index (n-1)p, floor, lerp) is the linear
    interpolation between the bracketing order statistics of the cell's valid values; the cell is
    missing exactly by the rule of C04. *)
-From Coq Require Import ZArith QArith Qcanon Qround List Bool Lia Lra Lqa ZifyBool Sorting.Permutation.
+From Coq Require Import ZArith QArith Qcanon Qround List Bool Lia Lqa ZifyBool Sorting.Permutation.
 From Catii Require Import Cube.XStats Cube.XStatsSpec Cube.XStatsCell Cube.XStatsBase Cube.XStatsGroup.
 Import ListNotations.
 Open Scope Z_scope.
